@@ -19,7 +19,7 @@ ADDENDA = {
         "each call (members not owned by the call unchanged, length members within their tables, field usable afterwards); "
         "gate builds initialise automatic variables with a pattern, so a result computed from a never-written local disagrees "
         "with the models.",
- "C13": " Also: builds whose default map is hash-and-increment (and SwiftEC, thorough), and messages that need 18-25 increments "
+ "C13": " Also: a build whose default map is hash-and-increment, and messages that need 18-25 increments "
         "of hash-and-increment (found offline with the model; the table supplies inputs only).",
  "C14": " Also: short histories of AES calls with related keys (equal, shared 16/24-octet prefixes, last octet differing, "
         "growing lengths): no state may be carried between calls.",
